@@ -1,11 +1,13 @@
 (** C24 — the rate limiter never exceeds its rate and admits as soon as that is possible.
     Property theorems only.  Every statement quantifies over ALL action lists (any number of entrants arriving at any
-    times, sleep timers firing late and in any order, arbitrary clock advances), every window length [w], every
-    count [c >= 1] and every start time [t0].  Model: RateLimiter/Model.v. *)
+    times, sleep timers firing late and in any order, arbitrary clock advances, admitted entrants leaving their
+    [async with] body at any moment normally / by an exception / by cancellation / by a timeout, sleeping entrants being
+    cancelled), every window length [w], every count [c >= 1] and every start time [t0].  Model: RateLimiter/Model.v. *)
 From HailV Require Import Common.Prelude RateLimiter.Model RateLimiter.Lemmas.
 Open Scope Z_scope.
 
-(** Window bound: no half-open window [t, t + w) ever contains more than [c] admissions. *)
+(** Window bound: no half-open window [t, t + w) ever contains more than [c] admissions — whatever happens to the bodies
+    of the admitted entrants ([Leave i Normal/Raise/Cancel/Timeout] are actions of the schedule). *)
 Theorem C24_window : forall (w c t0 : Z) (acts : list action) (t : Z),
   1 <= c -> window_count w t (adm (run w c t0 acts)) <= c.
 Proof. intros w c t0 acts t Hc. apply (v_window _ _ _ (Inv_run w c t0 acts Hc)). Qed.
@@ -41,3 +43,11 @@ Theorem C24_prompt : forall (w c t0 : Z) (acts : list action) (i : nat) (T : Z),
   c <= trailing_count w s /\ exists j, In (j, T - w) (adm s).
 Proof. intros w c t0 acts i T Hc s. apply sleeper_blocked. now apply Inv_run. Qed.
 Print Assumptions C24_prompt.
+
+(** What happens to the bodies is irrelevant: the clock, the deque, the sleepers with their timers and the whole admission
+    log after any schedule are those of the same schedule with every body exit erased.  An admission is never handed
+    back, however its body ends ([__aexit__] does nothing). *)
+Theorem C24_body_exits_irrelevant : forall (w c t0 : Z) (acts : list action),
+  core (run w c t0 acts) = core (run w c t0 (strip_leaves acts)).
+Proof. intros w c t0 acts. apply body_exits_irrelevant. Qed.
+Print Assumptions C24_body_exits_irrelevant.
